@@ -2,7 +2,9 @@ from props import COMMON_TRUST
 
 
 def pool_nontrivial(tok, res):
-    if tok[0] in ("offer", "user", "expire", "end", "release", "child", "mxclose", "mxaccept", "mxconn"):
+    if tok[0] in ("offer", "user", "expire", "end", "release", "child", "mxclose", "mxaccept", "mxconn",
+                  "newproxy", "closeproxy", "vlput", "vlaccept", "vpconn", "vprelease", "vpclose",
+                  "gpconn", "gpaccept", "gpclose"):
         return True
     if tok[0] == "login":
         return res.startswith("ok:")
@@ -22,6 +24,16 @@ def pool_class(r):
         return "ok:" + ("0" if r == "ok:0" else "n")
     if r.startswith("got:"):
         return "got"
+    if r.startswith("C:"):
+        return "C:" + ("0" if r == "C:0" else "n")
+    if r.startswith("exit:"):
+        return "exit:" + ("clean" if r == "exit:" else "stranded")
+    if r.startswith("b="):
+        return "census:" + ("clean" if r.endswith("open=") else "open")
+    if r.startswith("open="):
+        return "gcensus:" + ("clean" if r == "open=" else "open")
+    if r.startswith("err:"):
+        return "err:n"
     if ";" in r:
         return "child:" + r.split(";")[-1][:5]
     if r.isdigit():
@@ -47,6 +59,24 @@ PROP = {
             "Frp.C11.no_crash_partial", "Frp.C11.noCrashFull_repaired", "Frp.C11.handoff_limbo_witness",
             "Frp.C11.handoffNoLimbo_pinned_false", "Frp.C11.handoffNoLimbo_repaired",
             "Frp.C11.handoff_outcome",
+            "Frp.Pool.acct_step",
+            "Frp.Pool.acct_reach",
+            "Frp.C11.dead_conn_never_orphans",
+            "Frp.C11.closed_conn_never_bridged",
+            "Frp.C11.advance_history",
+            "Frp.C11.advance_history_le",
+            "Frp.C11.reqs_accounted",
+            "Frp.C11.proxy_ops_request_nothing",
+            "Frp.C11.VL.inv_step",
+            "Frp.C11.VL.inv_reach",
+            "Frp.C11.visitor_none_stranded",
+            "Frp.C11.visitor_queue_sound",
+            "Frp.C11.visitor_put_outcome",
+            "Frp.C11.visitor_drain_after_close",
+            "Frp.C11.GA.inv_step",
+            "Frp.C11.GA.inv_reach",
+            "Frp.C11.group_none_stranded",
+            "Frp.C11.group_worker_holds_one",
         ],
         "engines": [
             {"name": "pool", "quick_n": 1100, "thorough_n": 5000, "thorough_seeds": 4,
@@ -56,18 +86,32 @@ PROP = {
                 "raw client over the real connector/yamux: login with generated PoolCount (count ReqWorkConn), offers of "
                 "work connections on several yamux sessions (pooled / refused / bad key / handed to a waiting user), "
                 "user connections to the session's tcp proxy (which work connection got StartWorkConn, name, source and "
-                "destination address, payload echo), dead pooled connections (stream closed, whole yamux session "
-                "closed: retry loop), clients that never deliver (timeout measured), session end with a census of the "
-                "held connections, teardown parked at the gates worker.dispDone / worker.drained while work and user "
-                "connections arrive, negative PoolCount in a sacrificial child process; plus the real vhost HTTPS muxer "
-                "with listeners closed while connections are being handed over. Non-trivial = every offer, user, "
-                "expiry, census, child, muxer op and successful login; distinct = distinct (op line, result)",
+                "destination address, payload echo; closed by frps after consuming n pooled connections), dead pooled "
+                "connections (stream closed and the FIN made visible to frps by a round trip on the same yamux session; "
+                "whole yamux session closed: either outcome of the StartWorkConn write, read off the observation), "
+                "clients that never deliver (timeout measured), the session's proxy map over its history (NewProxy / "
+                "CloseProxy of the dialled proxy and of further ones, the map running empty and filling again: total "
+                "ReqWorkConn <= advance + user-driven), session end with a census of the held connections, teardown "
+                "parked at the gates worker.dispDone / worker.drained while work and user connections arrive, negative "
+                "PoolCount in a sacrificial child process; the real vhost HTTPS muxer with listeners closed while "
+                "connections are being handed over; the real InternalListener with PutConn / Accept / Close as single ops "
+                "(the harness is the accept loop; census of stranded connections when Accept fails); a real stcp proxy on "
+                "a real visitor.Manager whose accept goroutine is stalled (RemoteAddr of the accepted connection blocks) "
+                "while visitor connections queue up and the proxy is closed or released; a real TCPGroupCtl whose member "
+                "accept loops are the harness (users in the worker's hand and in the kernel queue when the last member "
+                "leaves). Non-trivial = every offer, user, expiry, census, child, proxy, muxer, listener, visitor, group "
+                "op and successful login; distinct = distinct (op line, result)",
         "trusted": COMMON_TRUST + [
-            "model Frp/Model/Pool.lean (Pool + Handoff) written by hand from server/control.go, service.go, proxy/proxy.go, "
-            "pkg/util/vhost/vhost.go; tied by the pool engine",
+            "model Frp/Model/Pool.lean (Pool + Handoff + VListen + GroupAccept) written by hand from server/control.go, "
+            "service.go, proxy/proxy.go, pkg/util/vhost/vhost.go, pkg/util/net/listener.go, server/visitor/visitor.go, "
+            "server/group/tcp.go; tied by the pool engine",
             "verifhook gates worker.dispDone / worker.drained (tag verif, /repo 75a0848) perturb timing only",
-            "yamux semantics used by the engine: a stream closed by the peer still accepts the StartWorkConn write "
-            "(half-close), a stream of a closed session does not",
+            "yamux semantics used by the engine: frames of one session are processed in order (the round trip after "
+            "`kill`); for a pooled connection the client has closed BOTH outcomes of the StartWorkConn write are accepted "
+            "(error: next round; no error: bridged, Join ends, user closed) and told apart by the number of pooled "
+            "connections the handler consumed (len(workConnCh) before/after, tag verif)",
+            "the stall of the stcp proxy's accept goroutine relies on startCommonTCPListenersHandler calling RemoteAddr() "
+            "of the accepted connection before its next Accept (no hook)",
         ],
         "assumptions": [
             "time: only the blocking wait of GetWorkConn takes time (tick is disabled while a handler is between two "
@@ -78,17 +122,22 @@ PROP = {
             "UserConnTimeout: GetWorkConnFromPool calls GetWorkConn again after a failed StartWorkConn write",
             "msgDispatcher.Send racing with the closed doneCh (select picks either) is a non-deterministic label "
             "(`request u ok`); the engine does not generate user connections on an empty pool at the dispDone gate",
-            "hand-off of group listeners (TCPGroup / TCPMuxGroup workers) is C13's (repaired in 9437e84); here the "
-            "vhost muxer only; visitor listeners use the same InternalListener.PutConn, which closes on failure",
+            "group listeners: who owns a user connection (kernel queue / worker's send / member) is modelled here "
+            "(GroupAccept) and driven on the real TCPGroupCtl; the join/leave protocol with its locks is C13's; "
+            "TCPMuxGroup has the same shape and is not driven; visitor listeners: InternalListener + visitor.Manager + "
+            "the accept loop (VListen), stcp driven, sudp/xtcp share the code path",
+            "advance requests: `Start()`'s burst is modelled as sent at once (it runs in a goroutine); the accounting "
+            "reqs = advance + user-driven is exact while the dispatcher lives",
         ],
     }
 
 META = {
         "engine": "lean+harness(pool)",
         "design_ref": "DESIGN.md §6 C11, Appendix A.2, §7 #4 #10 #11",
-        "technique": "Lean 4 small-step model of one session's work-connection pool (channel, handlers, teardown, clock) "
-                     "and of the vhost hand-off; a 10-clause invariant proved inductive over all 16 labels, consequences "
-                     "for every reachable state; kernel-checked witness schedules for the three defects of the pinned "
+        "technique": "Lean 4 small-step model of one session's work-connection pool (channel, handlers, proxy map, teardown, "
+                     "clock), of the vhost hand-off, of the visitor listener with its accept loop and of the group hand-off; "
+                     "a 10-clause invariant proved inductive over all 18 labels plus a request-accounting invariant, "
+                     "inductive invariants for the two accept-path models, consequences for every reachable state; kernel-checked witness schedules for the three defects of the pinned "
                      "tree and full theorems for the repaired model behind the switch Pool.current; differential "
                      "correspondence with a real frps driven by a scripted client, gates in the teardown, a sacrificial "
                      "child for the crashes",
@@ -98,7 +147,13 @@ META = {
                 "closed; offers for a session that left the manager are closed; the drain closes every pooled "
                 "connection and nothing is pooled afterwards; the advance requests are exactly max 0 (min client server); "
                 "a waiting handler has waited at most UserConnTimeout, the clock cannot pass a due timeout and the timeout "
-                "closes the user connection; no handler is ever stuck; the retry loop runs at most poolCount+1 rounds. "
+                "closes the user connection; no handler is ever stuck; the retry loop runs at most poolCount+1 rounds; a "
+                "pooled connection that turned out dead is closed and its user either retried or closed, whichever way the "
+                "StartWorkConn write goes; over the whole history (proxies registered, closed, registered again) the "
+                "advance requests stay max 0 (min client server) and every other ReqWorkConn belongs to a user connection; "
+                "for all interleavings of put / accept / close on a visitor listener nothing is queued once the accept loop "
+                "has ended (each connection accepted or closed) and after Close the loop returns every queued connection "
+                "before it ends; when the last member of a group has left, every user connection was delivered or closed. "
                 "False on the pinned tree, with kernel-checked witnesses reproduced on the real code: a work connection "
                 "sent into the already closed pool is neither pooled nor closed (limbo); Login.PoolCount < 0 kills frps "
                 "(< -10 at login, -10..-1 at the first user connection); a connection being handed to a vhost listener "
